@@ -12,7 +12,7 @@ Spec == Init /\ [][Next]_i
 
 InitUnit(c) == [tempTc |-> c.tempTc, tc |-> c.tc, activated |-> FALSE, limits |-> c.limits, report |-> c.report,
                 sel |-> c.sel, dtr0 |-> c.dtr0, dtr1 |-> c.dtr1, dtr2 |-> c.dtr2, level |-> c.level,
-                fault |-> [at |-> c.fault[1], kind |-> c.fault[2]], nans |-> 0]
+                fault |-> [at |-> c.fault[1], kind |-> c.fault[2]], nans |-> 0, pend |-> -1]
 
 FoldStep(acc, e) ==
     IF acc.at # 0 THEN acc
